@@ -441,6 +441,255 @@ func (r *runner) operandStates() {
 	r.checkConstants("operand-state matrix", true)
 }
 
+// separationAfter: the history continues after res := recv.Op(a, b).  First the receiver is
+// updated in place several times (growing it to full size) and every operand must keep its value;
+// then every operand is updated in place and the receiver (and the other operand) must keep
+// theirs.  Operands and receivers are prepared in the states where storage sharing stays invisible
+// right after the call: zeros and small values living in objects that held full-size values before
+// (Sub(x,x), Zero(), SetInt64(0|1|5) on a used object, Mul by zero), fresh zeros, ordinary values.
+func (r *runner) separationAfter() {
+	im := r.im
+	G := im.G
+	full := func() kyber.Scalar { return im.NewScalar(new(big.Int).Sub(r.q, r.rng.BigBelow(big.NewInt(1000)))) }
+	rnd := func() kyber.Scalar { return im.NewScalar(r.rng.BigBelow(r.q)) }
+	type sst struct {
+		name string
+		mk   func() kyber.Scalar
+	}
+	sstates := []sst{
+		{"random", rnd},
+		{"fresh Zero()", func() kyber.Scalar { return G.Scalar().Zero() }},
+		{"fresh One()", func() kyber.Scalar { return G.Scalar().One() }},
+		{"used: Sub(x,x)", func() kyber.Scalar { x := full(); return x.Sub(x, x) }},
+		{"used: Zero()", func() kyber.Scalar { return full().Zero() }},
+		{"used: SetInt64(0)", func() kyber.Scalar { return full().SetInt64(0) }},
+		{"used: SetInt64(1)", func() kyber.Scalar { return full().SetInt64(1) }},
+		{"used: SetInt64(5)", func() kyber.Scalar { return full().SetInt64(5) }},
+		{"used: One()", func() kyber.Scalar { return full().One() }},
+		{"used: Mul(x,0)", func() kyber.Scalar { x := full(); return x.Mul(x, G.Scalar().Zero()) }},
+		{"used: Set(0)", func() kyber.Scalar { return full().Set(G.Scalar().Zero()) }},
+		{"used: SetBytes(empty)", func() kyber.Scalar { return full().SetBytes([]byte{}) }},
+		{"used: Neg(0)", func() kyber.Scalar { return full().Neg(G.Scalar().Zero()) }},
+	}
+	sval := func(x kyber.Scalar) string { return hg.ScalarVal(x).String() }
+	type sop struct {
+		name  string
+		arity int
+		f     func(recv, a, b kyber.Scalar) kyber.Scalar
+		ok    func(a, b kyber.Scalar) bool
+	}
+	inv := func(x kyber.Scalar) bool { return new(big.Int).ModInverse(hg.ScalarVal(x), r.q) != nil }
+	sops := []sop{
+		{"Scalar.Add", 2, func(v, a, b kyber.Scalar) kyber.Scalar { return v.Add(a, b) }, nil},
+		{"Scalar.Sub", 2, func(v, a, b kyber.Scalar) kyber.Scalar { return v.Sub(a, b) }, nil},
+		{"Scalar.Mul", 2, func(v, a, b kyber.Scalar) kyber.Scalar { return v.Mul(a, b) }, nil},
+		{"Scalar.Div", 2, func(v, a, b kyber.Scalar) kyber.Scalar { return v.Div(a, b) }, func(a, b kyber.Scalar) bool { return inv(b) }},
+		{"Scalar.Neg", 1, func(v, a, _ kyber.Scalar) kyber.Scalar { return v.Neg(a) }, nil},
+		{"Scalar.Inv", 1, func(v, a, _ kyber.Scalar) kyber.Scalar { return v.Inv(a) }, func(a, _ kyber.Scalar) bool { return inv(a) }},
+		{"Scalar.Set", 1, func(v, a, _ kyber.Scalar) kyber.Scalar { return v.Set(a) }, nil},
+		{"Scalar.Clone", 1, func(_, a, _ kyber.Scalar) kyber.Scalar { return a.Clone() }, nil},
+	}
+	grow := []func(x kyber.Scalar){
+		func(x kyber.Scalar) { x.Add(x, full()) },
+		func(x kyber.Scalar) { x.Mul(x, full()) },
+		func(x kyber.Scalar) { x.Sub(x, rnd()) },
+		func(x kyber.Scalar) { x.Neg(x) },
+		func(x kyber.Scalar) { x.SetInt64(3) },
+		func(x kyber.Scalar) { x.Add(x, full()) },
+	}
+	fail := func(key, state string, info map[string]interface{}) {
+		info["impl"], info["operand_state"] = im.Name, state
+		r.rep.Fail(key+"{"+state+"}", "receiver and operand are not separate objects after the call: a later in-place update of one changed the other", info)
+	}
+	for _, op := range sops {
+		for ai, sa := range sstates {
+			for bi, sb := range sstates {
+				if op.arity == 1 && bi > 0 {
+					break
+				}
+				if op.arity == 2 && bi > 2 && bi != 3 && ai != bi {
+					continue // second operand: ordinary, fresh zero, fresh one, used zero, or the same state as the first
+				}
+				for _, usedRecv := range []bool{false, true} {
+					state := sa.name
+					if op.arity == 2 {
+						state += " / " + sb.name
+					}
+					if usedRecv {
+						state += " / used receiver"
+					}
+					pan, msg := vh.Try(func() {
+						// several continuations, each on a fresh instance of the call: sharing can be
+						// broken by the first write that reallocates, so every kind of first write is tried
+						for first := -1; first < len(grow); first++ {
+							a, b := sa.mk(), sb.mk()
+							if op.ok != nil && !op.ok(a, b) {
+								return
+							}
+							recv := G.Scalar()
+							if usedRecv {
+								recv = full()
+							}
+							res := op.f(recv, a, b)
+							va, vb := sval(a), sval(b)
+							order := grow
+							if first >= 0 {
+								order = []func(kyber.Scalar){grow[first]}
+							}
+							for k, g := range order {
+								g(res)
+								if sval(a) != va || sval(b) != vb {
+									fail(im.Name+"."+op.name+"/operand-changed-by-later-receiver-write", state,
+										map[string]interface{}{"first_write": first, "step": k, "a_before": va, "a_now": sval(a), "b_before": vb, "b_now": sval(b)})
+									return
+								}
+							}
+							operands := []kyber.Scalar{a}
+							if op.arity == 2 {
+								operands = append(operands, b)
+							}
+							for oi, x := range operands {
+								vr := sval(res)
+								vo := sval(operands[len(operands)-1-oi])
+								for k, g := range grow {
+									g(x)
+									if sval(res) != vr || (len(operands) == 2 && sval(operands[1-oi]) != vo) {
+										fail(im.Name+"."+op.name+"/receiver-changed-by-later-operand-write", state,
+											map[string]interface{}{"first_write": first, "operand": oi, "step": k, "receiver_before": vr, "receiver_now": sval(res)})
+										return
+									}
+								}
+							}
+						}
+					})
+					if pan {
+						r.rep.Fail(im.Name+"."+op.name+"/panic-in-continued-history{"+state+"}", msg, nil)
+					}
+					r.rep.Dist("separation:" + op.name)
+				}
+			}
+		}
+	}
+	// points: fresh computed values are sums of a few precomputed points (used as operands only)
+	var pre []kyber.Point
+	for i := 0; i < 5; i++ {
+		pre = append(pre, hg.NonNormal(im, r.rng))
+	}
+	sum := func() kyber.Point {
+		i := r.rng.Intn(len(pre))
+		j := (i + 1 + r.rng.Intn(len(pre)-1)) % len(pre)
+		p := im.NewPoint().Add(pre[i], pre[j])
+		if r.rng.Bool() {
+			p.Add(p, pre[(j+1)%len(pre)])
+		}
+		return p
+	}
+	type pst struct {
+		name string
+		mk   func() kyber.Point
+	}
+	pstates := []pst{
+		{"computed", sum},
+		{"fresh Null()", func() kyber.Point { return im.NewPoint().Null() }},
+		{"generator", func() kyber.Point { return im.Gen() }},
+		{"used: Null()", func() kyber.Point { return sum().Null() }},
+		{"used: Sub(p,p)", func() kyber.Point { p := sum(); return p.Sub(p, p) }},
+		{"used: Set(Null)", func() kyber.Point { return sum().Set(im.NewPoint().Null()) }},
+		{"used: Mul(0,p)", func() kyber.Point { p := sum(); return p.Mul(G.Scalar().Zero(), p) }},
+		{"used: Neg(Null)", func() kyber.Point { return sum().Neg(im.NewPoint().Null()) }},
+		{"decoded", func() kyber.Point { return im.FreshPoint(hg.Enc(sum())) }},
+	}
+	if im.HasBase {
+		pstates = append(pstates, pst{"used: Base()", func() kyber.Point { return sum().Base() }})
+	}
+	type pop struct {
+		name  string
+		arity int
+		f     func(recv, a, b kyber.Point) kyber.Point
+	}
+	pops := []pop{
+		{"Add", 2, func(v, a, b kyber.Point) kyber.Point { return v.Add(a, b) }},
+		{"Sub", 2, func(v, a, b kyber.Point) kyber.Point { return v.Sub(a, b) }},
+		{"Neg", 1, func(v, a, _ kyber.Point) kyber.Point { return v.Neg(a) }},
+		{"Set", 1, func(v, a, _ kyber.Point) kyber.Point { return v.Set(a) }},
+		{"Clone", 1, func(_, a, _ kyber.Point) kyber.Point { return a.Clone() }},
+		{"Mul", 1, func(v, a, _ kyber.Point) kyber.Point { return v.Mul(im.NewScalar(big.NewInt(1)), a) }},
+		{"Mul(0)", 1, func(v, a, _ kyber.Point) kyber.Point { return v.Mul(G.Scalar().Zero(), a) }},
+	}
+	pgrow := []func(x kyber.Point){
+		func(x kyber.Point) { x.Add(x, sum()) },
+		func(x kyber.Point) { x.Neg(x) },
+		func(x kyber.Point) { x.Sub(x, sum()) },
+		func(x kyber.Point) { x.Add(x, x) },
+	}
+	if !im.Slow {
+		pgrow = append(pgrow, func(x kyber.Point) { x.Mul(im.NewScalar(big.NewInt(3)), x) })
+	}
+	for _, op := range pops {
+		for ai, sa := range pstates {
+			for bi, sb := range pstates {
+				if op.arity == 1 && bi > 0 {
+					break
+				}
+				if op.arity == 2 && bi != 0 && bi != 3 && !(ai == bi && !im.Slow) {
+					continue // second operand: computed, used Null(), or the same state as the first
+				}
+				state := sa.name
+				if op.arity == 2 {
+					state += " / " + sb.name
+				}
+				pan, msg := vh.Try(func() {
+					for first := -1; first < 2; first++ {
+						a, b := sa.mk(), sb.mk()
+						recv := im.NewPoint()
+						st := state
+						if (ai+bi+first)%2 == 0 {
+							recv = sum()
+							if im.Prep != nil {
+								im.Prep(recv)
+							}
+							st += " / used receiver"
+						}
+						res := op.f(recv, a, b)
+						va, vb := hg.Enc(a), hg.Enc(b)
+						order := pgrow
+						if first >= 0 {
+							order = []func(kyber.Point){pgrow[first]}
+						}
+						for k, g := range order {
+							g(res)
+							if hg.Enc(a) != va || hg.Enc(b) != vb {
+								fail(im.Name+"."+op.name+"/operand-changed-by-later-receiver-write", "point "+st, map[string]interface{}{"first_write": first, "step": k})
+								return
+							}
+						}
+						operands := []kyber.Point{a}
+						if op.arity == 2 {
+							operands = append(operands, b)
+						}
+						for oi, x := range operands {
+							vr := hg.Enc(res)
+							vo := hg.Enc(operands[len(operands)-1-oi])
+							for k, g := range pgrow {
+								g(x)
+								if hg.Enc(res) != vr || (len(operands) == 2 && hg.Enc(operands[1-oi]) != vo) {
+									fail(im.Name+"."+op.name+"/receiver-changed-by-later-operand-write", "point "+st, map[string]interface{}{"first_write": first, "operand": oi, "step": k})
+									return
+								}
+							}
+						}
+					}
+				})
+				if pan {
+					r.rep.Fail(im.Name+"."+op.name+"/panic-in-continued-history{point "+state+"}", msg, nil)
+				}
+				r.rep.Dist("separation:" + op.name)
+			}
+		}
+	}
+	r.checkConstants("continued histories", false)
+}
+
 func (r *runner) snapshot() []string {
 	var o []string
 	for _, p := range r.pts {
@@ -1060,6 +1309,7 @@ func runImpl(im *hg.Impl, rng *vh.Rng, rep *vh.Report, itemsp *[]string, id, dra
 		}
 		r.cloneIndependence()
 		r.operandStates()
+		r.separationAfter()
 		// a variable that received a value from the group itself (Base, Null, Mul by the base) or a
 		// constant scalar is re-used as the receiver of a later write; then the group's values are
 		// observed again (by the constants oracle after every call, and by Base / Mul(s,nil) calls in
@@ -1173,7 +1423,7 @@ func runImpl(im *hg.Impl, rng *vh.Rng, rep *vh.Report, itemsp *[]string, id, dra
 func main() {
 	o := vh.ParseFlags()
 	rep := vh.NewReport("C05", o.Seed, o.Tier)
-	rep.Rule = "per implementation: every mutating method x every aliasing pattern of receiver/operands x operand draws (single-call programs) + random programs of 6-12 calls over 4 point and 3 scalar variables; constant-reuse programs (Base/Null/Mul-by-base or a constant scalar, then a later write to the same variable, then the group values again); every implementation also on its opt-in paths (AllowVarTime, full-group curves, caller DST); operand-state matrix (every operation with a private receiver on operands decoded from unreduced encodings, computed, identity, constants, Pick, long SetBytes: encoding/String/Equal of the operand before and after); pool values in unreduced / computed internal states; oracles at every call: receiver = result, other variables unchanged, result = result on fresh copies, group constants and objects created at start-up unchanged; Clone/Set independence under every mutator; all observed values compared with the Coq transcriptions"
+	rep.Rule = "per implementation: every mutating method x every aliasing pattern of receiver/operands x operand draws (single-call programs) + random programs of 6-12 calls over 4 point and 3 scalar variables; constant-reuse programs (Base/Null/Mul-by-base or a constant scalar, then a later write to the same variable, then the group values again); every implementation also on its opt-in paths (AllowVarTime, full-group curves, caller DST); continued histories after every operation (receiver then operands updated in place, with zeros / small values in used objects: the others must keep their values); operand-state matrix (every operation with a private receiver on operands decoded from unreduced encodings, computed, identity, constants, Pick, long SetBytes: encoding/String/Equal of the operand before and after); pool values in unreduced / computed internal states; oracles at every call: receiver = result, other variables unchanged, result = result on fresh copies, group constants and objects created at start-up unchanged; Clone/Set independence under every mutator; all observed values compared with the Coq transcriptions"
 	rng := vh.NewRng(o.Seed)
 	var items []string
 	id := 0
